@@ -102,10 +102,11 @@ func newWorld(kind string) (*World, error) {
 }
 
 func (w *World) hook(point string, args ...any) {
-	if point == "post.before" {
-		// args: key, cas -- collection unknown here; counted per key prefix is not possible, so count globally per world
-		v, _ := w.posts.LoadOrStore("all", new(atomic.Int64))
-		v.(*atomic.Int64).Add(1)
+	if point == "post.before" && len(args) >= 1 {
+		if id, ok := args[0].(uint32); ok {
+			v, _ := w.posts.LoadOrStore(id, new(atomic.Int64))
+			v.(*atomic.Int64).Add(1)
+		}
 	}
 	schedHook(point, args...)
 }
@@ -600,8 +601,8 @@ func fmtEvent(e sgbucket.FeedEvent) string {
 	return fmt.Sprintf("ev:{k=%s;op=%s;dt=%d;v%s;x=%s;cas=%d;exp=%d;rev=%d;coll=%d}", e.Key, op, e.DataType, optBytes(val), xs, e.Cas, e.Expiry, e.RevNo, e.CollectionID)
 }
 
-func (w *World) postCount() int64 {
-	v, _ := w.posts.LoadOrStore("all", new(atomic.Int64))
+func (w *World) postCount(collID uint32) int64 {
+	v, _ := w.posts.LoadOrStore(collID, new(atomic.Int64))
 	return v.(*atomic.Int64).Load()
 }
 
@@ -633,7 +634,7 @@ func (w *World) startFeed(l Line) string {
 	w.mu.Lock()
 	w.feeds[id] = f
 	w.mu.Unlock()
-	f.basePosts = w.postCount()
+	f.collID = c.GetCollectionID()
 	cb := func(e sgbucket.FeedEvent) bool {
 		f.mu.Lock()
 		defer f.mu.Unlock()
@@ -655,6 +656,7 @@ func (w *World) startFeed(l Line) string {
 		return true
 	}
 	err := c.StartDCPFeed(ctx, args, cb, nil)
+	f.basePosts = w.postCount(f.collID) // sequential harness: nothing was posted while the feed registered
 	go func() {
 		<-f.done
 		f.doneClosed.Store(true)
@@ -677,30 +679,22 @@ func (w *World) drain(l Line) string {
 			status = "timeout"
 		}
 	} else {
-		// expected live deliveries are not knowable in general (posts of other collections do not reach this feed),
-		// so wait for quiescence: the count must be stable over consecutive polls after at least `min` events.
-		min := l.u64("min", 0)
-		stable := 0
-		last := int64(-1)
+		// every event posted on the feed's collection since it registered is pushed to its queue before the posting
+		// call returns; wait until that many live events have been delivered (a feed that is starved times out).
 		for {
+			want := w.postCount(f.collID) - f.basePosts
 			f.mu.Lock()
-			n := int64(len(f.events))
+			got := f.delivered
 			bfDone := !f.wantBF || f.sawEnd
 			f.mu.Unlock()
-			if bfDone && n >= int64(min)+int64(f.printed) && n == last {
-				stable++
-				if stable >= 3 {
-					break
-				}
-			} else {
-				stable = 0
+			if bfDone && got >= want {
+				break
 			}
-			last = n
 			if time.Now().After(deadline) {
 				status = "timeout"
 				break
 			}
-			time.Sleep(300 * time.Microsecond)
+			time.Sleep(100 * time.Microsecond)
 		}
 	}
 	f.mu.Lock()
